@@ -9,7 +9,7 @@ pub mod tape;
 pub mod thread;
 pub mod time;
 
-pub use kernel::{
+pub use kernel::{set_env_now, 
     count_fault, hash_bytes, yield_now, now_ns, quiesce, sleep_ns, Census, ConnCtl, ConnEv, Ctl, ConnFaults, ConnInfo, ConnRec,
     ConnectBehaviour, ConnectRec, History, Peer, PeerFactory, RunOutcome, Sim, SimConfig, ThreadRec, NS_PER_MS,
     NS_PER_S,
